@@ -11,6 +11,7 @@ CONSTANTS
   Policers = {}
   PPlans <- MCPPlans
 PROPERTY AbsSpec
+PROPERTY AbsNoCuts
 INVARIANT AbsIndInv
 INVARIANT AbsSafety
 INVARIANT SameProperties
